@@ -4,6 +4,7 @@ import (
 	"bufio"
 	"bytes"
 	"errors"
+	"io"
 
 	"github.com/evanoberholster/imagemeta/imagetype"
 	"verif/core"
@@ -61,7 +62,41 @@ func sniffAll(h []byte, idx int, suffix []byte, r *SniffR) uint8 {
 	}
 	t, e = imagetype.ReadAt(bytes.NewReader(full))
 	chk("ReadAt", t, e)
+	// the same stream delivered in pieces (a Read may return fewer bytes than asked for) is the same stream
+	t, e = imagetype.Scan(&pieceReader{b: full, first: 1, rest: 1})
+	chk("Scan(one byte per Read)", t, e)
+	t, e = imagetype.Scan(&pieceReader{b: full, first: 23, rest: 7})
+	chk("Scan(23 bytes, then 7 per Read)", t, e)
+	t, e = imagetype.ScanBuf(bufio.NewReaderSize(&pieceReader{b: full, first: 5, rest: 11}, 64))
+	chk("ScanBuf(5 bytes, then 11 per Read)", t, e)
 	return uint8(t0)
+}
+
+// pieceReader delivers b in pieces: `first` bytes by the first Read, `rest` bytes by each later one.
+type pieceReader struct {
+	b           []byte
+	first, rest int
+	n           int
+}
+
+func (p *pieceReader) Read(q []byte) (int, error) {
+	if len(p.b) == 0 {
+		return 0, io.EOF
+	}
+	k := p.rest
+	if p.n == 0 {
+		k = p.first
+	}
+	p.n++
+	if k > len(q) {
+		k = len(q)
+	}
+	if k > len(p.b) {
+		k = len(p.b)
+	}
+	copy(q, p.b[:k])
+	p.b = p.b[k:]
+	return k, nil
 }
 
 func readFull(br *bufio.Reader, p []byte) (int, error) {
